@@ -92,7 +92,7 @@ def run_contract(task, budget_s=120):
         if time.time() > t_end:
             out['obligations'].append({'name': nm, 'status': 'undecided', 'why': 'function budget exhausted', 'kind': ob.kind})
             continue
-        r = solve.discharge(ob, timeout_ms=tmo, rounds=rounds)
+        r = solve.discharge(ob, timeout_ms=tmo, rounds=rounds, sum_frame=not c.get('no_sum_frame'))
         rec = {'name': nm, 'status': r['status'], 'backend': r.get('backend'), 'ms': r.get('ms'), 'kind': ob.kind,
                'nhyps': r.get('nhyps'), 'line': ob.line}
         if r['status'] == 'refuted':
